@@ -10,6 +10,7 @@ package main
 import (
 	"encoding/json"
 	"fmt"
+	"github.com/VividCortex/ewma"
 	"math"
 	"math/big"
 	"sort"
@@ -537,9 +538,14 @@ func runConst(c c20Ewma) (msg string) {
 		}
 	}()
 	var base decor.Decorator
-	if c.Ctor == "ewmaspeed" {
+	switch c.Ctor {
+	case "ewmaspeed":
 		base = decor.EwmaSpeed(decor.SizeB1024(0), "% .2f", c.Age)
-	} else {
+	case "tsma-speed": // a user-supplied estimator made thread safe by the library's wrapper
+		base = decor.MovingAverageSpeed(decor.SizeB1024(0), "% .2f", decor.NewThreadSafeMovingAverage(ewma.NewMovingAverage(c.Age)))
+	case "tsma-eta":
+		base = decor.MovingAverageETA(decor.ET_STYLE_GO, decor.NewThreadSafeMovingAverage(decor.NewThreadSafeMovingAverage(ewma.NewMovingAverage(c.Age))), nil)
+	default:
 		base = decor.EwmaETA(decor.ET_STYLE_GO, c.Age)
 	}
 	d := wrapDeep(base, c.Wrap)
@@ -583,7 +589,7 @@ func runConst(c c20Ewma) (msg string) {
 	if strings.Contains(low, "nan") || strings.Contains(low, "inf") {
 		return fmt.Sprintf("printed %q", str)
 	}
-	if c.Ctor == "ewmaspeed" {
+	if strings.HasSuffix(c.Ctor, "speed") {
 		speed := 1e9 / float64(c.PerNs)
 		if m := checkSizeStringTol(str, 1024, speed, 1e-6); m != "" {
 			return fmt.Sprintf("EwmaSpeed(age %v) after %d samples at a constant %d ns per item: %s", c.Age, len(c.Samples), c.PerNs, m)
@@ -1024,7 +1030,7 @@ func runC20(job common.Job, em *emitter) {
 			for k := 0; k < 400; k++ {
 				if k%8 == 7 {
 					// public constructors, own estimators, constant rate
-					c := c20Ewma{Kind: "const", Ctor: rng.PickS("ewmaeta", "ewmaspeed"), Wrap: rng.Intn(3), Via: rng.PickS("direct", "bar", "barset"),
+					c := c20Ewma{Kind: "const", Ctor: rng.PickS("ewmaeta", "ewmaspeed", "ewmaeta", "ewmaspeed", "tsma-eta", "tsma-speed"), Wrap: rng.Intn(3), Via: rng.PickS("direct", "bar", "barset"),
 						Age: []float64{0, 0, 30, 1, 7.5, 100}[rng.Intn(6)], PerNs: rng.Pick64(1, 3, 1000, 12345, int64(time.Millisecond))}
 					for i, n := 0, rng.Range(15, 30); i < n; i++ {
 						items := 1 + rng.I64n(1000)
